@@ -28,7 +28,7 @@ def gen_and_run(tier, d, workers=8):
     out = os.path.join(d, "typing_out.ndjson")
     nv.write_ndjson(inp, [{"setup": meta["setup"]}] + [{"id": i, "s1": c["s1"], "s2": c["s2"]} for i, c in enumerate(cases)])
     nv.harness("nv-typing", ["typing-run", "--cases", inp, "--out", out])
-    results = nv.read_ndjson_text(open(out).read())
+    results = nv.read_ndjson_text(open(out, encoding="utf-8").read())
     return res, cases, results
 
 
